@@ -78,8 +78,15 @@ Proof.
 Qed.
 
 Transparent code_flush_fn code_tx.
+Lemma code_init_on_refines db b : code_init_on C canonical_code db b = init_on C db b.
+Proof. unfold code_init_on, init_on. cbn [canonical_code code_init_autocommit code_init_count_zero code_init_tx_cycle andb]. apply code_tx_refines. Qed.
 Lemma code_init_refines b : code_init C canonical_code b = init C b.
-Proof. unfold code_init, init. cbn [canonical_code code_init_autocommit code_init_count_zero code_init_tx_cycle andb]. apply code_tx_refines. Qed.
+Proof. apply code_init_on_refines. Qed.
+Lemma code_reopen_refines w : code_reopen C canonical_code w = reopen C w.
+Proof.
+  unfold code_reopen, reopen. rewrite code_close_refines. destruct (close C w) as [w1|e]; cbn [bind]; [|reflexivity].
+  apply code_init_on_refines.
+Qed.
 
 End Proofs.
 
@@ -222,7 +229,8 @@ Lemma raw_rows_create d ts t1 k : create_table_if_absent C d ts = Ok t1 -> raw_r
 Proof.
   unfold create_table_if_absent. destruct (find_table (d_name d) ts).
   - intros H; inversion H; reflexivity.
-  - destruct (ident_nodup (field_names C d)); [|discriminate]. intros H; inversion H; subst t1.
+  - destruct (reserved_name (d_name d)); [discriminate|].
+    destruct (ident_nodup (field_names C d)); [|discriminate]. intros H; inversion H; subst t1.
     unfold raw_rows, find_table. rewrite find_app. fold (find_table k ts).
     destruct (find_table k ts); [reflexivity|]. cbn [find]. match goal with |- context [is_table k ?t] => destruct (is_table k t) end; reflexivity.
 Qed.
@@ -259,10 +267,29 @@ Proof. unfold seq_run. rewrite fold_left_app. reflexivity. Qed.
 Lemma scan_snoc b evs e : scan_all b (evs ++ [e]) = scan_step b (scan_all b evs) e.
 Proof. unfold scan_all. rewrite fold_left_app. reflexivity. Qed.
 
-Lemma init_good b : exists w, init C b = Ok w /\ good C w [] /\ w_seen w = [] /\ w_batch w = b /\ w_count w = 0%N /\ visible w = [].
+Lemma init_on_good db b : exists w, init_on C db b = Ok w /\ good C w db /\ w_seen w = [] /\ w_batch w = b /\ w_count w = 0%N /\ visible w = db.
 Proof.
-  unfold init, tx_cycle, in_tx, on_con. cbn. eexists. split; [reflexivity|].
+  unfold init_on, tx_cycle, in_tx, on_con. cbn. eexists. split; [reflexivity|].
   unfold good, visible, view; cbn. repeat split.
+Qed.
+Lemma init_good b : exists w, init C b = Ok w /\ good C w [] /\ w_seen w = [] /\ w_batch w = b /\ w_count w = 0%N /\ visible w = [].
+Proof. apply init_on_good. Qed.
+
+Lemma close_good w ts : good C w ts ->
+  exists w', close C w = Ok w' /\ visible w' = ts /\ w_open w' = false /\ c_pending (w_con w') = [] /\ c_in_tx (w_con w') = false /\
+             w_batch w' = w_batch w.
+Proof.
+  intros G. pose proof G as (Ho & _ & _). unfold close. rewrite Ho.
+  destruct (flush_good C w ts G) as (w1 & E1 & (Ho1 & _ & _) & (_ & Mb & _) & V1). rewrite E1. cbn [bind]. unfold on_con. rewrite Ho1. cbn [bind].
+  eexists. split; [reflexivity|]. unfold visible in *. cbn. auto.
+Qed.
+
+(* a new writer on the same file: the database persists, the writer-local state starts afresh *)
+Lemma reopen_good w ts : good C w ts ->
+  exists w', reopen C w = Ok w' /\ good C w' ts /\ w_seen w' = [] /\ w_batch w' = w_batch w /\ w_count w' = 0%N /\ visible w' = ts.
+Proof.
+  intros G. destruct (close_good w ts G) as (w1 & E1 & V1 & _ & _ & _ & B1). unfold reopen. rewrite E1. cbn [bind].
+  unfold visible in V1. rewrite V1, B1. apply init_on_good.
 Qed.
 
 Lemma firstn_snoc_le {A} n (l : list A) x : n <= List.length l -> firstn n (l ++ [x]) = firstn n l.
@@ -275,8 +302,8 @@ Proof. apply firstn_all2. rewrite app_length. cbn. lia. Qed.
 (* the state of the model after a history, against the transaction-free semantics and the positional
    description of commit points *)
 Definition run_post (b : N) (evs : list event) (st : seq_state) (w : wstate) : Prop :=
-  good C w (snd st) /\ w_seen w = fst st /\ w_batch w = b /\ w_count w = n_writes evs /\
-  sc_pos (scan_all b evs) = List.length evs /\ sc_cnt (scan_all b evs) = n_writes evs /\
+  good C w (snd st) /\ w_seen w = fst st /\ w_batch w = b /\ w_count w = sc_cnt (scan_all b evs) /\
+  sc_pos (scan_all b evs) = List.length evs /\
   sc_seen (scan_all b evs) = fst st /\ last_commit b evs <= List.length evs /\
   exists tc, content C (firstn (last_commit b evs) evs) = Ok tc /\ forall k, raw_rows (visible w) k = raw_rows tc k.
 
@@ -290,20 +317,20 @@ Proof.
   - cbn [seq_run fold_left]. destruct (init_good b) as (w & E & G & Hs & Hbt & Hc & Hv).
     exists w. split; [exact E|]. unfold run_post, last_commit. cbn [scan_all fold_left sc_pos sc_cnt sc_seen sc_lc firstn List.length fst snd].
     split; [exact G|]. split; [exact Hs|]. split; [exact Hbt|]. split; [exact Hc|].
-    split; [reflexivity|]. split; [reflexivity|]. split; [reflexivity|]. split; [lia|].
+    split; [reflexivity|]. split; [reflexivity|]. split; [lia|].
     exists []. split; [reflexivity|]. intros k. rewrite Hv. reflexivity.
   - rewrite seq_run_snoc, run_snoc.
     destruct (seq_run C evs) as [st|e0] eqn:Hsr; cbn [bind].
     2:{ rewrite IH. reflexivity. }
-    destruct IH as (w & E & G & Hs & Hbt & Hc & Hp & Hn & Hss & Hle & tc & Htc & Hrows).
-    rewrite E. cbn [bind]. unfold last_commit in *. destruct e as [r|]; cbn [step seq_step].
+    destruct IH as (w & E & G & Hs & Hbt & Hc & Hp & Hss & Hle & tc & Htc & Hrows).
+    rewrite E. cbn [bind]. unfold last_commit in *. destruct e as [r| |]; cbn [step seq_step].
     + (* write *)
       assert (Hbw : w_batch w <> 0%N) by (rewrite Hbt; exact Hb).
       pose proof (write_step C w st r G Hs Hbw) as W.
       destruct (seq_write C st r) as [st'|e1] eqn:Hsw; [|exact W].
       destruct W as (w' & E' & G' & Hs' & Hbt' & Hc' & Hv').
       exists w'. split; [exact E'|]. unfold run_post, last_commit. rewrite scan_snoc. cbn [scan_step sc_pos sc_cnt sc_seen sc_lc].
-      rewrite Hp, Hn, Hss, n_writes_snoc_w, app_length. cbn [List.length].
+      rewrite Hp, Hss, app_length. cbn [List.length].
       (* the seen set after the write, and the committed schema statements of a new descriptor *)
       assert (Hfst : fst st' = if existsb (desc_eqb (r_desc r)) (fst st) then fst st else fst st ++ [r_desc r]).
       { unfold seq_write in Hsw. destruct (existsb (desc_eqb (r_desc r)) (fst st)); cbn [bind] in Hsw.
@@ -315,9 +342,9 @@ Proof.
         destruct (ddl C (r_desc r) (snd st)) as [t2|]; cbn [bind] in Hsw; [|discriminate]. exists t2; reflexivity. }
       rewrite Hc, Hbt in Hv'.
       split; [exact G'|]. split; [exact Hs'|]. split; [rewrite Hbt'; exact Hbt|]. split; [rewrite Hc', Hc; reflexivity|].
-      split; [lia|]. split; [reflexivity|].
+      split; [lia|].
       split. { rewrite Hfst. destruct (existsb (desc_eqb (r_desc r)) (fst st)); reflexivity. }
-      destruct (((n_writes evs + 1) mod b) =? 0)%N.
+      destruct (((sc_cnt (scan_all b evs) + 1) mod b) =? 0)%N.
       * (* the batch is full: everything including this record is committed *)
         split; [lia|]. exists (snd st'). split.
         -- rewrite firstn_snoc_all. unfold content. rewrite seq_run_snoc, Hsr. cbn [bind seq_step]. rewrite Hsw. reflexivity.
@@ -333,9 +360,18 @@ Proof.
     + (* explicit flush *)
       destruct (flush_good C w (snd st) G) as (w' & E' & G' & (Mc & Mb & Ms) & V').
       exists w'. split; [exact E'|]. unfold run_post, last_commit. rewrite scan_snoc. cbn [scan_step sc_pos sc_cnt sc_seen sc_lc].
-      rewrite Hp, Hn, Hss, n_writes_snoc_f, app_length. cbn [List.length].
+      rewrite Hp, Hss, app_length. cbn [List.length].
       split; [exact G'|]. split; [rewrite Ms; exact Hs|]. split; [rewrite Mb; exact Hbt|]. split; [rewrite Mc; exact Hc|].
-      split; [lia|]. split; [reflexivity|]. split; [reflexivity|]. split; [lia|].
+      split; [lia|]. split; [reflexivity|]. split; [lia|].
+      exists (snd st). split.
+      * rewrite firstn_snoc_all. unfold content. rewrite seq_run_snoc, Hsr. reflexivity.
+      * intros k. rewrite V'. reflexivity.
+    + (* the writer is closed and a new one opened on the same file *)
+      destruct (reopen_good w (snd st) G) as (w' & E' & G' & Hs' & Hbt' & Hc' & V').
+      exists w'. split; [exact E'|]. unfold run_post, last_commit. rewrite scan_snoc. cbn [scan_step sc_pos sc_cnt sc_seen sc_lc fst snd].
+      rewrite Hp, app_length. cbn [List.length].
+      split; [exact G'|]. split; [exact Hs'|]. split; [rewrite Hbt'; exact Hbt|]. split; [exact Hc'|].
+      split; [lia|]. split; [reflexivity|]. split; [lia|].
       exists (snd st). split.
       * rewrite firstn_snoc_all. unfold content. rewrite seq_run_snoc, Hsr. reflexivity.
       * intros k. rewrite V'. reflexivity.
@@ -646,6 +682,8 @@ Lemma descs_of_snoc_w evs r : descs_of (evs ++ [EWrite r]) = descs_of evs ++ [r_
 Proof. unfold descs_of. rewrite writes_app, map_app. reflexivity. Qed.
 Lemma writes_snoc_f evs : writes (evs ++ [EFlush]) = writes evs.
 Proof. rewrite writes_app. cbn. apply app_nil_r. Qed.
+Lemma writes_snoc_r evs : writes (evs ++ [EReopen]) = writes evs.
+Proof. rewrite writes_app. cbn. apply app_nil_r. Qed.
 Lemma type_names_snoc_w evs r : type_names (evs ++ [EWrite r]) = type_names evs ++ [d_name (r_desc r)].
 Proof. unfold type_names. rewrite descs_of_snoc_w, map_app. reflexivity. Qed.
 Lemma descs_named_snoc_w n evs r :
@@ -660,18 +698,27 @@ Proof.
   unfold spec_tables, spec_table, type_names, descs_named, records_named, descs_of. rewrite writes_snoc_f. reflexivity.
 Qed.
 
-Definition hyps (evs : list event) : Prop := wf_history C evs /\ case_distinct C evs /\ ints_in_range evs.
+Lemma spec_tables_snoc_r evs : spec_tables C (evs ++ [EReopen]) = spec_tables C evs.
+Proof.
+  unfold spec_tables, spec_table, type_names, descs_named, records_named, descs_of. rewrite writes_snoc_r. reflexivity.
+Qed.
+
+Definition hyps (evs : list event) : Prop :=
+  wf_history C evs /\ case_distinct C evs /\ ints_in_range evs /\ no_reserved_names evs.
 
 Lemma hyps_prefix evs e : hyps (evs ++ [e]) -> hyps evs.
 Proof.
-  intros (Hw & (Hc1 & Hc2) & Hi). destruct e as [r|].
-  - repeat split.
+  intros (Hw & (Hc1 & Hc2) & Hi & Hr). destruct e as [r| |].
+  - split; [|split; [split|split]].
     + intros d Hd. apply Hw. rewrite descs_of_snoc_w. apply in_or_app. left. exact Hd.
     + eapply case_inj_incl; [|exact Hc1]. rewrite type_names_snoc_w. apply incl_appl, incl_refl.
     + intros n. eapply case_inj_incl; [|exact (Hc2 n)]. rewrite descs_named_snoc_w, flat_map_app. apply incl_appl, incl_refl.
     + intros r' Hr'. apply Hi. rewrite writes_app. apply in_or_app. left. exact Hr'.
-  - unfold hyps, wf_history, case_distinct, ints_in_range, type_names, descs_named, descs_of in *.
+    + intros n Hn. apply Hr. rewrite type_names_snoc_w. apply in_or_app. left. exact Hn.
+  - unfold hyps, wf_history, case_distinct, ints_in_range, no_reserved_names, type_names, descs_named, descs_of in *.
     rewrite writes_snoc_f in *. repeat split; assumption.
+  - unfold hyps, wf_history, case_distinct, ints_in_range, no_reserved_names, type_names, descs_named, descs_of in *.
+    rewrite writes_snoc_r in *. repeat split; assumption.
 Qed.
 
 Lemma names_of_cols ds k : In k (map fst (dedup_by fst (flat_map (cols_of C) ds))) <-> In k (flat_map (field_names C) ds).
@@ -771,11 +818,11 @@ Qed.
 (* one write of the transaction-free semantics produces exactly the declaratively described tables *)
 Lemma seq_write_spec evs r sn :
   hyps C (evs ++ [EWrite r]) ->
-  (forall d, existsb (desc_eqb d) sn = true <-> In d (descs_of evs)) ->
+  (forall d, existsb (desc_eqb d) sn = true -> In d (descs_of evs)) ->
   exists sn', seq_write C (sn, spec_tables C evs) r = Ok (sn', spec_tables C (evs ++ [EWrite r])) /\
-              (forall d, existsb (desc_eqb d) sn' = true <-> In d (descs_of (evs ++ [EWrite r]))).
+              (forall d, existsb (desc_eqb d) sn' = true -> In d (descs_of (evs ++ [EWrite r]))).
 Proof.
-  intros (Hw & (Hc1 & Hc2) & Hi) Hsn.
+  intros (Hw & (Hc1 & Hc2) & Hi & Hres) Hsn.
   set (d := r_desc r). set (n := d_name d).
   set (names := dedup_by self (type_names evs)).
   set (ds := descs_named n evs). set (rs := records_named n evs).
@@ -868,6 +915,9 @@ Proof.
       unfold ddl, create_table_if_absent. fold n. unfold spec_tables. fold names.
       rewrite (find_named (spec_table C evs) (spec_table_name evs) n names Hci0).
       apply mem_str_false in Hn0. rewrite Hn0. apply mem_str_false in Hn0.
+      assert (Hrn : reserved_name n = false).
+      { apply Hres. rewrite type_names_snoc_w. apply in_or_app. right. left. reflexivity. }
+      rewrite Hrn.
       rewrite ident_nodup_ok; [|eapply case_inj_incl; [|exact Hcf]; intros x Hx; rewrite flat_map_app; apply in_or_app; right; cbn; rewrite app_nil_r; exact Hx|exact Hnd].
       cbn [bind].
       assert (Hcreated : map (spec_table C evs) names ++ [{| t_name := n; t_cols := cols_of C d; t_rows := [] |}] = map g1 names1).
@@ -901,10 +951,9 @@ Proof.
       rewrite E, !app_nil_r. reflexivity.
   - intros d'. rewrite descs_of_snoc_w. fold d. rewrite in_app_iff. cbn [In].
     destruct (existsb (desc_eqb d) sn) eqn:Hseen.
-    + rewrite Hsn. apply Hsn in Hseen. split; [auto|intros [H|[<-|[]]]; assumption].
-    + rewrite existsb_app, orb_true_iff, Hsn. cbn [existsb]. rewrite orb_false_r, desc_eqb_eq.
-      split; [intros [H|H]; [left; exact H|right; left; symmetry; exact H]
-             |intros [H|[H|[]]]; [left; exact H|right; symmetry; exact H]].
+    + intros H. left. apply Hsn. exact H.
+    + rewrite existsb_app, orb_true_iff. cbn [existsb]. rewrite orb_false_r, desc_eqb_eq.
+      intros [H|H]; [left; apply Hsn; exact H|right; left; symmetry; exact H].
 Qed.
 
 End Proofs.
@@ -916,15 +965,16 @@ Variable C : config.
 (* ---------- the transaction-free semantics equals the declarative description ---------- *)
 Theorem seq_run_spec evs : hyps C evs ->
   exists sn, seq_run C evs = Ok (sn, spec_tables C evs) /\
-             (forall d, existsb (desc_eqb d) sn = true <-> In d (descs_of evs)).
+             (forall d, existsb (desc_eqb d) sn = true -> In d (descs_of evs)).
 Proof.
   induction evs as [|e evs IH] using rev_ind; intros H.
-  - exists []. split; [reflexivity|]. intros d. cbn. split; [discriminate|intros []].
+  - exists []. split; [reflexivity|]. intros d. cbn. discriminate.
   - destruct (IH (hyps_prefix C evs e H)) as (sn & Hrun & Hsn). rewrite seq_run_snoc, Hrun. cbn [bind].
-    destruct e as [r|]; cbn [seq_step].
+    destruct e as [r| |]; cbn [seq_step].
     + destruct (seq_write_spec C evs r sn H Hsn) as (sn' & Hw & Hsn'). exists sn'. split; assumption.
     + exists sn. rewrite spec_tables_snoc_f. split; [reflexivity|].
-      intros d. rewrite Hsn. unfold descs_of. rewrite writes_snoc_f. tauto.
+      intros d Hd. unfold descs_of. rewrite writes_snoc_f. apply Hsn. exact Hd.
+    + exists []. cbn [snd]. rewrite spec_tables_snoc_r. split; [reflexivity|]. intros d. cbn. discriminate.
 Qed.
 
 Corollary content_spec evs : hyps C evs -> content C evs = Ok (spec_tables C evs).
@@ -950,20 +1000,13 @@ Proof.
 Qed.
 
 (* ---------- close ---------- *)
-Lemma close_good w ts : good C w ts ->
-  exists w', close C w = Ok w' /\ visible w' = ts /\ w_open w' = false /\ c_pending (w_con w') = [] /\ c_in_tx (w_con w') = false.
-Proof.
-  intros G. pose proof G as (Ho & _ & _). unfold close. rewrite Ho.
-  destruct (flush_good C w ts G) as (w1 & E1 & (Ho1 & _ & _) & _ & V1). rewrite E1. cbn [bind]. unfold on_con. rewrite Ho1. cbn [bind].
-  eexists. split; [reflexivity|]. unfold visible in *. cbn. auto.
-Qed.
 
 Theorem final_db_content b evs : b <> 0%N -> final_db C b evs = content C evs.
 Proof.
   intros Hb. pose proof (run_inv C b evs Hb) as H. unfold final_db, finish, content.
   destruct (seq_run C evs) as [st|e].
   - destruct H as (w & E & G & _). rewrite E. cbn [bind].
-    destruct (close_good w (snd st) G) as (w' & E' & V & _). rewrite E'. cbn [bind]. rewrite V. reflexivity.
+    destruct (close_good C w (snd st) G) as (w' & E' & V & _). rewrite E'. cbn [bind]. rewrite V. reflexivity.
   - rewrite H. reflexivity.
 Qed.
 
@@ -976,7 +1019,7 @@ Proof.
   intros Hb Hf. pose proof (run_inv C b evs Hb) as H. unfold finish, content in *.
   destruct (seq_run C evs) as [st|e].
   - destruct H as (w0 & E & G & _). rewrite E in Hf. cbn [bind] in Hf.
-    destruct (close_good w0 (snd st) G) as (w' & E' & V & R). rewrite E' in Hf. inversion Hf; subst w'.
+    destruct (close_good C w0 (snd st) G) as (w' & E' & V & R1 & R2 & R3 & _). rewrite E' in Hf. inversion Hf; subst w'.
     cbn [bind]. rewrite V. auto.
   - rewrite H in Hf. discriminate.
 Qed.
@@ -987,7 +1030,7 @@ Theorem commit_points b evs w : b <> 0%N -> run C b evs = Ok w ->
 Proof.
   intros Hb Hr. pose proof (run_inv C b evs Hb) as H. destruct (seq_run C evs) as [st|e].
   - destruct H as (w0 & E & P). rewrite E in Hr. inversion Hr; subst w0.
-    destruct P as (_ & _ & _ & _ & _ & _ & _ & Hle & Hex). split; assumption.
+    destruct P as (_ & _ & _ & _ & _ & _ & Hle & Hex). split; assumption.
   - rewrite H in Hr. discriminate.
 Qed.
 
@@ -1124,14 +1167,18 @@ Qed.
 End Proofs.
 
 (* ================= part 10 ================= *)
+Lemma session_snoc evs e : session (evs ++ [e]) = session_step (session evs) e.
+Proof. unfold session. rewrite fold_left_app. reflexivity. Qed.
+
 Lemma scan_facts b evs :
-  sc_pos (scan_all b evs) = List.length evs /\ sc_cnt (scan_all b evs) = n_writes evs /\
-  (forall d, existsb (desc_eqb d) (sc_seen (scan_all b evs)) = true <-> In d (descs_of evs)) /\
+  sc_pos (scan_all b evs) = List.length evs /\ sc_cnt (scan_all b evs) = n_writes (session evs) /\
+  (forall d, existsb (desc_eqb d) (sc_seen (scan_all b evs)) = true <-> In d (descs_of (session evs))) /\
   sc_lc (scan_all b evs) <= List.length evs.
 Proof.
   induction evs as [|e evs IH] using rev_ind.
   - cbn. split; [reflexivity|]. split; [reflexivity|]. split; [|lia]. intros d. split; [discriminate|intros []].
-  - destruct IH as (Hp & Hc & Hs & Hl). rewrite scan_snoc, app_length. cbn [List.length]. destruct e as [r|]; cbn [scan_step sc_pos sc_cnt sc_seen sc_lc].
+  - destruct IH as (Hp & Hc & Hs & Hl). rewrite scan_snoc, session_snoc, app_length. cbn [List.length].
+    destruct e as [r| |]; cbn [scan_step session_step sc_pos sc_cnt sc_seen sc_lc].
     + rewrite Hp, Hc, n_writes_snoc_w. split; [lia|]. split; [reflexivity|]. split.
       * intros d. rewrite descs_of_snoc_w, in_app_iff. cbn [In].
         destruct (existsb (desc_eqb (r_desc r)) (sc_seen (scan_all b evs))) eqn:E; cbn [negb].
@@ -1139,10 +1186,12 @@ Proof.
         -- rewrite existsb_app, orb_true_iff, Hs. cbn [existsb]. rewrite orb_false_r, desc_eqb_eq.
            split; [intros [H|H]; [left; exact H|right; left; symmetry; exact H]
                   |intros [H|[H|[]]]; [left; exact H|right; symmetry; exact H]].
-      * destruct (((n_writes evs + 1) mod b) =? 0)%N; [lia|].
+      * destruct (((n_writes (session evs) + 1) mod b) =? 0)%N; [lia|].
         destruct (negb (existsb (desc_eqb (r_desc r)) (sc_seen (scan_all b evs)))); lia.
     + rewrite Hp, Hc, n_writes_snoc_f. split; [lia|]. split; [reflexivity|]. split; [|lia].
       intros d. rewrite Hs. unfold descs_of. rewrite writes_snoc_f. tauto.
+    + rewrite Hp. split; [lia|]. split; [reflexivity|]. split; [|lia].
+      intros d. cbn. split; [discriminate|intros []].
 Qed.
 
 Lemma nth_error_snoc_lt {A} (l : list A) x c : c < List.length l -> nth_error (l ++ [x]) c = nth_error l c.
@@ -1154,13 +1203,14 @@ Proof. apply nth_error_None. lia. Qed.
 
 Lemma cp_snoc_le b evs e c : c <= List.length evs ->
   (is_commit_point b (evs ++ [e]) c <->
-   is_commit_point b evs c \/ (c = List.length evs /\ exists r, e = EWrite r /\ ~ In (r_desc r) (descs_of evs))).
+   is_commit_point b evs c \/
+   (c = List.length evs /\ exists r, e = EWrite r /\ ~ In (r_desc r) (descs_of (session evs)))).
 Proof.
   intros Hc. unfold is_commit_point. rewrite (firstn_snoc_le c evs e Hc).
   split.
   - intros [H|[(c' & -> & H)|[(c' & r & -> & H1 & H2)|(r & H1 & H2)]]].
     + left. left. exact H.
-    + left. right. left. exists c'. split; [reflexivity|]. rewrite nth_error_snoc_lt in H by lia. exact H.
+    + left. right. left. exists c'. split; [reflexivity|]. rewrite !nth_error_snoc_lt in H by lia. exact H.
     + left. right. right. left. exists c', r. split; [reflexivity|]. rewrite nth_error_snoc_lt in H1 by lia. split; assumption.
     + destruct (Nat.eq_dec c (List.length evs)) as [->|Hne].
       * right. split; [reflexivity|]. rewrite nth_error_snoc_eq in H1. inversion H1; subst e. exists r. split; [reflexivity|].
@@ -1168,7 +1218,7 @@ Proof.
       * left. right. right. right. exists r. rewrite nth_error_snoc_lt in H1 by lia. split; assumption.
   - intros [[H|[(c' & -> & H)|[(c' & r & -> & H1 & H2)|(r & H1 & H2)]]]|(-> & r & -> & H)].
     + left. exact H.
-    + right. left. exists c'. split; [reflexivity|]. rewrite nth_error_snoc_lt by lia. exact H.
+    + right. left. exists c'. split; [reflexivity|]. rewrite !nth_error_snoc_lt by lia. exact H.
     + right. right. left. exists c', r. split; [reflexivity|]. rewrite nth_error_snoc_lt by lia. split; assumption.
     + right. right. right. exists r. split; [|exact H2].
       assert (c < List.length evs). { apply nth_error_Some. rewrite H1. discriminate. }
@@ -1178,21 +1228,22 @@ Qed.
 
 Lemma cp_snoc_last b evs e :
   is_commit_point b (evs ++ [e]) (S (List.length evs)) <->
-  e = EFlush \/ exists r, e = EWrite r /\ ((n_writes evs + 1) mod b = 0)%N.
+  e = EFlush \/ e = EReopen \/ exists r, e = EWrite r /\ ((n_writes (session evs) + 1) mod b = 0)%N.
 Proof.
   unfold is_commit_point. rewrite firstn_snoc_all. split.
   - intros [H|[(c' & Hc & H)|[(c' & r & Hc & H1 & H2)|(r & H1 & H2)]]].
     + discriminate.
-    + inversion Hc; subst c'. rewrite nth_error_snoc_eq in H. inversion H. left. reflexivity.
-    + inversion Hc; subst c'. rewrite nth_error_snoc_eq in H1. inversion H1; subst e. right. exists r. split; [reflexivity|].
-      rewrite n_writes_snoc_w in H2. exact H2.
+    + inversion Hc; subst c'. rewrite !nth_error_snoc_eq in H. destruct H as [H|H]; inversion H; auto.
+    + inversion Hc; subst c'. rewrite nth_error_snoc_eq in H1. inversion H1; subst e. right. right. exists r. split; [reflexivity|].
+      rewrite session_snoc in H2. cbn [session_step] in H2. rewrite n_writes_snoc_w in H2. exact H2.
     + exfalso. assert (E : nth_error (evs ++ [e]) (S (List.length evs)) = None).
       { apply nth_error_None. rewrite app_length. cbn. lia. }
       rewrite E in H1. discriminate.
-  - intros [->|(r & -> & H)].
-    + right. left. exists (List.length evs). split; [reflexivity|apply nth_error_snoc_eq].
+  - intros [->|[->|(r & -> & H)]].
+    + right. left. exists (List.length evs). split; [reflexivity|]. left. apply nth_error_snoc_eq.
+    + right. left. exists (List.length evs). split; [reflexivity|]. right. apply nth_error_snoc_eq.
     + right. right. left. exists (List.length evs), r. split; [reflexivity|]. split; [apply nth_error_snoc_eq|].
-      rewrite n_writes_snoc_w. exact H.
+      rewrite session_snoc. cbn [session_step]. rewrite n_writes_snoc_w. exact H.
 Qed.
 
 (* the scanned position is the LAST commit point of the history *)
@@ -1204,28 +1255,31 @@ Proof.
   - cbn. split; [left; reflexivity|]. intros c Hc. lia.
   - destruct IH as (IH1 & IH2). destruct (scan_facts b evs) as (Hp & Hc & Hs & Hl).
     rewrite scan_snoc, app_length. cbn [List.length]. replace (List.length evs + 1) with (S (List.length evs)) by lia.
-    destruct e as [r|]; cbn [scan_step sc_lc].
-    + rewrite Hp, Hc. destruct (((n_writes evs + 1) mod b) =? 0)%N eqn:Ef.
+    destruct e as [r| |]; cbn [scan_step sc_lc].
+    + rewrite Hp, Hc. destruct (((n_writes (session evs) + 1) mod b) =? 0)%N eqn:Ef.
       * apply N.eqb_eq in Ef. split.
-        -- apply cp_snoc_last. right. exists r. split; [reflexivity|exact Ef].
+        -- apply cp_snoc_last. right. right. exists r. split; [reflexivity|exact Ef].
         -- intros c Hcc. lia.
       * apply N.eqb_neq in Ef.
         assert (Hlast : ~ is_commit_point b (evs ++ [EWrite r]) (S (List.length evs))).
-        { intros H. apply cp_snoc_last in H. destruct H as [H|(r' & _ & H)]; [discriminate|contradiction]. }
+        { intros H. apply cp_snoc_last in H. destruct H as [H|[H|(r' & _ & H)]]; [discriminate|discriminate|contradiction]. }
         destruct (existsb (desc_eqb (r_desc r)) (sc_seen (scan_all b evs))) eqn:Es; cbn [negb].
-        -- assert (Hin : In (r_desc r) (descs_of evs)) by (apply Hs; exact Es). split.
+        -- assert (Hin : In (r_desc r) (descs_of (session evs))) by (apply Hs; exact Es). split.
            ++ apply cp_snoc_le; [exact Hl|]. left. exact IH1.
            ++ intros c Hcc. destruct (Nat.eq_dec c (S (List.length evs))) as [->|Hne]; [exact Hlast|].
               intros H. apply cp_snoc_le in H; [|lia]. destruct H as [H|(_ & r' & E & H)].
               ** apply (IH2 c); [lia|exact H].
               ** inversion E; subst r'. contradiction.
-        -- assert (Hnin : ~ In (r_desc r) (descs_of evs)).
+        -- assert (Hnin : ~ In (r_desc r) (descs_of (session evs))).
            { intros H. apply Hs in H. rewrite H in Es. discriminate. }
            split.
            ++ apply cp_snoc_le; [lia|]. right. split; [reflexivity|]. exists r. split; [reflexivity|exact Hnin].
            ++ intros c Hcc. assert (c = S (List.length evs)) as -> by lia. exact Hlast.
     + rewrite Hp. split.
       * apply cp_snoc_last. left. reflexivity.
+      * intros c Hcc. lia.
+    + rewrite Hp. split.
+      * apply cp_snoc_last. right. left. reflexivity.
       * intros c Hcc. lia.
 Qed.
 
@@ -1246,41 +1300,66 @@ Lemma code_refines cd : cd = canonical_code ->
   (forall w r, code_write_fn C cd w r = write C w r) /\
   (forall w, code_tx C cd w = tx_cycle C w) /\
   (forall w, code_flush_fn C cd w = flush C w) /\
-  (forall w, code_close_fn C cd w = close C w).
+  (forall w, code_close_fn C cd w = close C w) /\
+  (forall w, code_reopen C cd w = reopen C w).
 Proof.
   intros ->. split; [apply code_init_refines|]. split; [apply code_write_refines|]. split; [apply code_tx_refines|].
-  split; [apply code_flush_refines|apply code_close_refines].
+  split; [apply code_flush_refines|]. split; [apply code_close_refines|apply code_reopen_refines].
 Qed.
 
-Lemma hypsb_sound evs : hypsb C evs = true -> wf_history C evs /\ case_distinct C evs /\ ints_in_range evs.
+Lemma no_reserved_namesb_sound evs : no_reserved_namesb evs = true -> no_reserved_names evs.
 Proof.
-  unfold hypsb. rewrite !andb_true_iff. intros ((H1 & H2) & H3).
-  split; [apply wf_historyb_sound, H1|]. split; [apply case_distinctb_sound, H2|apply ints_in_rangeb_sound, H3].
+  unfold no_reserved_namesb, no_reserved_names. rewrite forallb_forall. intros H n Hn. specialize (H n Hn).
+  destruct (reserved_name n); [discriminate|reflexivity].
+Qed.
+
+Lemma hypsb_sound evs : hypsb C evs = true ->
+  wf_history C evs /\ case_distinct C evs /\ ints_in_range evs /\ no_reserved_names evs.
+Proof.
+  unfold hypsb. rewrite !andb_true_iff. intros (((H1 & H2) & H3) & H4).
+  split; [apply wf_historyb_sound, H1|]. split; [apply case_distinctb_sound, H2|].
+  split; [apply ints_in_rangeb_sound, H3|apply no_reserved_namesb_sound, H4].
 Qed.
 
 Lemma hypsb_sound_wf_ints evs : wf_historyb C evs && ints_in_rangeb evs = true -> wf_history C evs /\ ints_in_range evs.
 Proof. rewrite andb_true_iff. intros (H1 & H2). split; [apply wf_historyb_sound, H1|apply ints_in_rangeb_sound, H2]. Qed.
 
-Theorem every_write_succeeds b evs : b <> 0%N -> wf_history C evs -> case_distinct C evs -> ints_in_range evs ->
+Theorem every_write_succeeds b evs : b <> 0%N ->
+  wf_history C evs -> case_distinct C evs -> ints_in_range evs -> no_reserved_names evs ->
   exists w, run C b evs = Ok w /\ final_db C b evs = Ok (spec_tables C evs).
-Proof. intros Hb H1 H2 H3. apply no_error; [exact Hb|]. exact (conj H1 (conj H2 H3)). Qed.
+Proof. intros Hb H1 H2 H3 H4. apply no_error; [exact Hb|]. exact (conj H1 (conj H2 (conj H3 H4))). Qed.
 
-Theorem tables_and_columns b evs : b <> 0%N -> wf_history C evs -> case_distinct C evs -> ints_in_range evs ->
+Theorem tables_and_columns b evs : b <> 0%N ->
+  wf_history C evs -> case_distinct C evs -> ints_in_range evs -> no_reserved_names evs ->
   exists ts, final_db C b evs = Ok ts /\
     map t_name ts = dedup_by self (type_names evs) /\
     forall t, In t ts -> t_cols t = spec_cols C (t_name t) evs.
 Proof.
-  intros Hb H1 H2 H3. destruct (final_observed C b evs Hb (conj H1 (conj H2 H3))) as (ts & E & O).
+  intros Hb H1 H2 H3 H4. destruct (final_observed C b evs Hb (conj H1 (conj H2 (conj H3 H4)))) as (ts & E & O).
   exists ts. split; [exact E|]. destruct (spec_db_tables C evs ts O) as (Hn & Ht). split; [exact Hn|].
   intros t Hin. apply Ht, Hin.
 Qed.
 
-Theorem rows_in_order b evs : b <> 0%N -> wf_history C evs -> case_distinct C evs -> ints_in_range evs ->
+Theorem rows_in_order b evs : b <> 0%N ->
+  wf_history C evs -> case_distinct C evs -> ints_in_range evs -> no_reserved_names evs ->
   exists ts, final_db C b evs = Ok ts /\
     forall t, In t ts -> select_all t = map (spec_row C (t_cols t)) (records_named (t_name t) evs).
 Proof.
-  intros Hb H1 H2 H3. destruct (final_observed C b evs Hb (conj H1 (conj H2 H3))) as (ts & E & O).
+  intros Hb H1 H2 H3 H4. destruct (final_observed C b evs Hb (conj H1 (conj H2 (conj H3 H4)))) as (ts & E & O).
   exists ts. split; [exact E|]. destruct (spec_db_tables C evs ts O) as (_ & Ht). intros t Hin. apply Ht, Hin.
+Qed.
+
+(* reading the database back: every table is read, with as many records as were written of that type *)
+Theorem read_back_counts b evs : b <> 0%N ->
+  wf_history C evs -> case_distinct C evs -> ints_in_range evs -> no_reserved_names evs ->
+  exists ts, final_db C b evs = Ok ts /\
+    map fst (read_db C ts) = dedup_by self (type_names evs) /\
+    forall t, In t ts -> List.length (read_table C t) = List.length (records_named (t_name t) evs).
+Proof.
+  intros Hb H1 H2 H3 H4. destruct (final_observed C b evs Hb (conj H1 (conj H2 (conj H3 H4)))) as (ts & E & O).
+  exists ts. split; [exact E|]. destruct (spec_db_tables C evs ts O) as (Hn & Ht). split.
+  - unfold read_db. rewrite map_map. cbn [fst]. exact Hn.
+  - intros t Hin. unfold read_table. rewrite map_length. destruct (Ht t Hin) as (_ & ->). apply map_length.
 Qed.
 
 Theorem other_connection b evs w : b <> 0%N -> run C b evs = Ok w ->
